@@ -23,6 +23,7 @@ import (
 	"encoding/binary"
 	"encoding/hex"
 	"encoding/json"
+	"errors"
 	"fmt"
 	"io"
 	"strings"
@@ -322,6 +323,16 @@ func (b *c01Backend) queue(req *trillian.QueueLeafRequest) (*trillian.QueueLeafR
 		l.LeafValue = append(append([]byte{}, l.LeafValue...), 0)
 		return &trillian.QueueLeafResponse{QueuedLeaf: &trillian.QueuedLogLeaf{Leaf: &l}}, nil
 	}
+	if strings.HasPrefix(b.fault, "rpc-error ") { // the QueueLeaf call itself fails
+		if b.fault == "rpc-error plain" {
+			return nil, errors.New("backend unavailable")
+		}
+		for c := codes.Code(1); c <= codes.Unauthenticated; c++ {
+			if b.fault == "rpc-error "+c.String() {
+				return nil, status.Errorf(c, "QueueLeaf refused: %s", c)
+			}
+		}
+	}
 	k := string(req.Leaf.LeafIdentityHash)
 	if old, ok := b.leaves[k]; ok {
 		return &trillian.QueueLeafResponse{QueuedLeaf: &trillian.QueuedLogLeaf{Leaf: old, Status: status.New(codes.AlreadyExists, "dup").Proto()}}, nil
@@ -601,9 +612,23 @@ func (l *c01Log) fault(chain []*vCert, pre bool, kind string) {
 		ep = "add-pre-chain"
 	}
 	var code int
-	p := verifkit.Guard(func() { code = vServe(l.li, ep, "POST", nil, string(body)).Code })
+	var rbody string
+	p := verifkit.Guard(func() { w := vServe(l.li, ep, "POST", nil, string(body)); code, rbody = w.Code, w.Body.String() })
 	key := fmt.Sprintf("backend-reply %s %s", kind, ep)
 	l.out.Count("mode:fault-" + kind)
+	if strings.HasPrefix(kind, "rpc-error ") {
+		// the QueueLeaf call failed: whatever status that maps to (C08's table), a 200 must carry an SCT — and there is none to give
+		var rsp c01Rsp
+		switch {
+		case p != "":
+			l.out.Fail(key, "panic: "+p)
+		case code == 200 && (json.Unmarshal([]byte(rbody), &rsp) != nil || rsp.ID == "" || rsp.Signature == ""):
+			l.out.Fail(key, fmt.Sprintf("the backend failed QueueLeaf (%s) on a resubmission, %s answered 200 and the body is not an SCT: %q", kind, ep, rbody))
+		case code == 200:
+			l.out.Fail(key, fmt.Sprintf("the backend failed QueueLeaf (%s) and returned no leaf, but %s answered 200 with an SCT", kind, ep))
+		}
+		return
+	}
 	switch {
 	case p != "":
 		l.out.Fail(key, "panic: "+p)
@@ -860,6 +885,16 @@ func TestVerifC01(t *testing.T) {
 		}
 		// malformed backend replies (once per log, both endpoints)
 		for _, kind := range []string{"no-leaf", "no-queued-leaf", "nil-response", "garbage-leaf", "trailing-bytes"} {
+			for _, s := range done[:2] {
+				lg.fault(s.chain, s.pre, kind)
+			}
+		}
+		// the QueueLeaf call itself fails, with every gRPC code and with a plain error, on a resubmission of a logged chain
+		kinds := []string{"rpc-error plain"}
+		for c := codes.Code(1); c <= codes.Unauthenticated; c++ {
+			kinds = append(kinds, "rpc-error "+c.String())
+		}
+		for _, kind := range kinds {
 			for _, s := range done[:2] {
 				lg.fault(s.chain, s.pre, kind)
 			}
